@@ -23,7 +23,7 @@ Print Assumptions C11_ragged_readonly.
 (* after switching the handle to 'r+' the same operations succeed (when valid) *)
 Theorem C11_array_rplus : forall w s o,
   Rel w s -> wf_op s o ->
-  let w1 := snd (step w (OpSetMode RW)) in let s1 := with_mode s RW in
+  let w1 := snd (step w (OpSetMode (Some RW))) in let s1 := with_mode s RW in
   Rel w1 s1 /\
   is_ok (fst (step w1 o)) = fst (spec_step s1 o) /\
   (forall cs g, o = OpIterAppend cs -> good_prefix (s_tail s) cs = (g, false) -> fst (spec_step s1 o) = true) /\
@@ -31,8 +31,8 @@ Theorem C11_array_rplus : forall w s o,
   (forall p, o = OpSetItem (Some p) -> fst (spec_step s1 o) = true).
 Proof.
   intros w s o HR Hwf w1 s1.
-  destruct (step_refines w s (OpSetMode RW) HR I) as [_ HR1]. fold w1 in HR1.
-  change (snd (spec_step s (OpSetMode RW))) with s1 in HR1.
+  destruct (step_refines w s (OpSetMode (Some RW)) HR I) as [_ HR1]. fold w1 in HR1.
+  change (snd (spec_step s (OpSetMode (Some RW)))) with s1 in HR1.
   split; [exact HR1|]. split.
   - apply (step_refines w1 s1 o HR1). destruct o; cbn in *; try exact I. exact Hwf.
   - repeat split.
